@@ -44,7 +44,8 @@ pub fn replay(_cfg: &Cfg, path: &str) -> i32 {
     let mut sink = Sink::new();
     let mut rng = Rng::new(0, 0);
     let mut rec = GameRecord::new(&rec0.family, rec0.seed, rec0.index, rec0.start.clone());
-    let opts = PlayOpts { max_turns: u32::MAX, max_actions: u32::MAX, ..PlayOpts::default() };
+    // a finding of a transposition-order level walk may depend on the order of expansion: repeat the walk at its root
+    let opts = PlayOpts { max_turns: u32::MAX, max_actions: u32::MAX, replay_level_tree: rec0.level_tree, ..PlayOpts::default() };
     play(&mut rec, Policy::Replay(rec0.actions.clone()), &opts, &mut rng, mon.as_mut(), &mut sink);
     mon.finish(&mut sink);
     println!("replayed {} of {} recorded actions under monitor {}", rec.actions.len(), rec0.actions.len(), prop);
